@@ -481,6 +481,10 @@ func (db *MultiBucketBackend) PutObject(
 	}
 	input = bytes.NewReader(bts)
 
+	if meta == nil {
+		// a caller of the Go API with no metadata to store; the merge below writes into the map
+		meta = map[string]string{}
+	}
 	err = gofakes3.MergeMetadata(db, bucketName, objectName, meta)
 	if err != nil {
 		return result, err
